@@ -29,7 +29,7 @@ func MainC08(prop, tier string) int {
 		r.Floor("quiescent_comparisons", 1)
 		return r.Finish()
 	}
-	r.Fanout("c08", vk.NumWorkers(), 40*time.Minute)
+	r.Fanout("c08", vk.NumWorkers(), 90*time.Minute)
 	r.Floor("quiescent_comparisons", 100)
 	r.Floor("sessions", 10)
 	return r.Finish()
@@ -110,7 +110,7 @@ func workerC08(r *vk.Run, w, n int, args []string) {
 	bin, _ := fzfrun.Bin()
 	sessions := 240
 	if !r.Quick() {
-		sessions = 1200
+		sessions = 6000
 	}
 	per := sessions/n + 1
 	for i := 0; i < per; i++ {
